@@ -17,6 +17,8 @@ The skeletons are regenerated from /repo's working tree on every run (Gen/Fx.lea
   Client.connect (C03, C04, C13): "session established" is announced exactly on the path on which NewSession succeeded;
     the path on which it failed takes the decoder, starts the clean-up goroutine, disconnects - in this order - and
     announces nothing.
+  NewSession (C03, C04): the negotiation steps are called in RFC 6120 order on every path, no step without the ones
+    before it, the TLS gate before authentication.
   StreamManager.Stop (C13): the handler is removed before the client is disconnected, then Run is released.
 -/
 namespace XmppVerif.Tie.FxConn
@@ -88,6 +90,48 @@ theorem client_inner_connect_every_run :
     ∀ l t, Runs traceSem (get "Client.connect") [] (.ret l t) → innerConnectOk t = true :=
   allTraces_sound _ _ client_inner_connect_every_path
 
+/-- the negotiation steps of NewSession, in RFC 6120 order (stream restarts included) -/
+def stepOrder : List String :=
+  ["Session.init", "Session.startTlsIfSupported", "Session.reset", "Session.auth", "Session.reset", "Session.resume",
+   "Session.bind", "Session.rfc3921Session", "Session.EnableStreamManagement"]
+
+/-- `l` is `ref` with some elements left out (same order) -/
+def isSubseq : List String → List String → Bool
+  | [], _ => true
+  | _ :: _, [] => false
+  | x :: xs, y :: ys => if x == y then isSubseq xs ys else isSubseq (x :: xs) ys
+
+def stepsOf (t : List Act) : List String :=
+  t.filterMap fun | .call w => if w.startsWith "Session." then some w else none | _ => none
+
+/-- NewSession on every path (C03: "the client's own requests always appear in RFC 6120 order, each sent only after the
+previous step was confirmed"; C04: the TLS gate sits before authentication) -/
+def newSessionOk (t : List Act) : Bool :=
+  let st := stepsOf t
+  -- the steps taken are the canonical ones, in order, none twice (but the stream restart)
+  isSubseq st stepOrder && st.head? == some "Session.init" &&
+  -- nothing after a step is skipped over: a path that binds has authenticated, restarted the stream and tried to resume
+  (!st.contains "Session.bind" || (st.contains "Session.auth" && st.contains "Session.resume")) &&
+  (!st.contains "Session.resume" || st.contains "Session.auth") &&
+  (!st.contains "Session.rfc3921Session" || st.contains "Session.bind") &&
+  (!st.contains "Session.EnableStreamManagement" || st.contains "Session.rfc3921Session") &&
+  -- the TLS gate (the permanent error built when the transport is not secure and Insecure is off) comes before auth:
+  -- a path that reaches auth has looked at IsSecure twice (before STARTTLS, at the gate) and built no such error
+  (!st.contains "Session.auth" || (cnt2 (.call "Transport.IsSecure") t == 2 && !t.contains (.call "fmt.Errorf"))) &&
+  -- a path that builds the gate's error authenticates nothing
+  (!t.contains (.call "fmt.Errorf") || !st.contains "Session.auth")
+where cnt2 (a : Act) (t : List Act) : Nat := (t.filter (· == a)).length
+
+theorem new_session_every_path : allTraces (get "NewSession") newSessionOk = true := by decide +kernel
+
+theorem new_session_every_run :
+    ∀ l t, Runs traceSem (get "NewSession") [] (.ret l t) → newSessionOk t = true :=
+  allTraces_sound _ _ new_session_every_path
+
+example : newSessionOk [.call "Session.init", .call "Transport.IsSecure", .call "Transport.IsSecure", .call "Session.auth",
+    .call "Session.reset", .call "Session.resume", .call "Session.bind", .call "Session.EnableStreamManagement",
+    .call "Session.rfc3921Session", .call "return s, s.err"] = false := by decide +kernel
+
 /-- StreamManager.Stop: handler removed, client disconnected, Run released - in this order, on its only path -/
 theorem stop_every_path :
     allTraces (get "StreamManager.Stop") (fun t =>
@@ -113,3 +157,5 @@ end XmppVerif.Tie.FxConn
 #print axioms XmppVerif.Tie.FxConn.client_inner_connect_every_path
 #print axioms XmppVerif.Tie.FxConn.client_inner_connect_every_run
 #print axioms XmppVerif.Tie.FxConn.stop_every_path
+#print axioms XmppVerif.Tie.FxConn.new_session_every_path
+#print axioms XmppVerif.Tie.FxConn.new_session_every_run
